@@ -4,16 +4,19 @@
 (* guards).  Scenario families are selected with OpKinds.                   *)
 EXTENDS MetadataFSM, Json
 
-CONSTANTS StreamSet, MaxParts, Brokers, ConsumerSet, Coords, OpKinds, MaxOps, MaxSnaps, MaxRestarts
+CONSTANTS StreamSet, MaxParts, Brokers, ConsumerSet, Coords, OpKinds, MaxOps, MaxSnaps, MaxRestarts, Variants
 VARIABLES log, last, nSnap, nRestart
 mcvars == <<vars, log, last, nSnap, nRestart>>
 
 Ldr == CHOOSE b \in Brokers : \A c \in Brokers : RankIn(<<"r1", "r2", "r3">>, b) <= RankIn(<<"r1", "r2", "r3">>, c)
+\* "plain": subject = name, no stream-level configuration; "custom": another subject and overrides
+SubjOf(s, v) == IF v = "plain" THEN s ELSE CASE s = "sa" -> "x.sa" [] s = "sb" -> "x.sb" [] OTHER -> "x.other"
 Existing == DOMAIN streams
 PidsOf(s) == {i - 1 : i \in DOMAIN streams[s].parts}
 
 Candidates ==
-  (IF "CreateStream" \in OpKinds THEN {[op |-> "CreateStream", s |-> s, n |-> n, R |-> Brokers, ldr |-> Ldr] : s \in StreamSet, n \in 1..MaxParts} ELSE {})
+  (IF "CreateStream" \in OpKinds THEN {[op |-> "CreateStream", s |-> s, n |-> n, R |-> Brokers, ldr |-> Ldr, subj |-> SubjOf(s, v),
+                                               cfg |-> IF v = "custom" THEN "k1" ELSE "none", ts |-> 7] : s \in StreamSet, n \in 1..MaxParts, v \in Variants} ELSE {})
   \cup (IF "DeleteStream" \in OpKinds THEN {[op |-> "DeleteStream", s |-> s] : s \in StreamSet} ELSE {})
   \cup (IF "Pause" \in OpKinds THEN {[op |-> "Pause", s |-> s, pids |-> P, resumeAll |-> FALSE] : s \in StreamSet, P \in {{}, {0}}} ELSE {})
   \cup (IF "Resume" \in OpKinds THEN {[op |-> "Resume", s |-> s, pids |-> P] : s \in StreamSet, P \in {{0}, 0..(MaxParts - 1)}} ELSE {})
